@@ -140,5 +140,11 @@ func Corpus(res *vh.Result, prop string) []*Hist {
 		g.scBackScenario()
 		out = append(out, h)
 	}
+	// C04 (seeded change C04-E): an embedded stuck voteproof signed by an outsider and by foreign keys
+	{
+		h, g := corpusHist(res, prop, 4, 670)
+		g.stuckScenario(false)
+		out = append(out, h)
+	}
 	return out
 }
